@@ -211,8 +211,8 @@ Rx ==
          ELSE IF t = 3 THEN  \* SACK
            ep' = [ep EXCEPT ![s].sq = ApplySack(@, Ev.cum, GapSetOf(Ev.cum, Ev.gaps)),
                             ![s].rwnd = Ev.rwnd, ![s].hasRwnd = TRUE, ![s].since = 0]
-         ELSE IF t = 192 THEN  \* FORWARD-TSN (the code does not drain the buffer here)
-           LET r == RxForward(e.rx, Ev.cum, StreamSet(Ev.streams))
+         ELSE IF t = 192 THEN  \* FORWARD-TSN: move the point, then deliver what became contiguous
+           LET r == Drain(RxForward(e.rx, Ev.cum, StreamSet(Ev.streams)), OrdF)
            IN ep' = [ep EXCEPT ![s].rx = [r EXCEPT !.out = <<>>],
                                ![s].expDel = @ \o OutToDel(r.out)]
          ELSE IF t \in {1, 2} THEN  \* INIT / INIT-ACK: the peer's initial TSN and window
